@@ -130,7 +130,7 @@ def run(shard, rec):
                     V('multiplicative-aliases', f'*,/ disagree with @,~ for elements {i},{j}', case)
             if a == b and hash(a) != hash(b) and desc[0] in ('sym', 'qr', 'schnorr'):
                 V('hash', f'equal elements hash differently', case)
-        rec.case(case, nontrivial=not (a == e) and not (b == e))
+        rec.case(case, nontrivial=not (a == e) and not (b == e), sample={'group': gname, 'law': 'pair laws (homomorphism, commutativity, inverse, aliases)', 'exponents': [str(exps[i])[:40], str(exps[j])[:40]] if exps else [i, j], 'product': str(ab)[:80]} if (i, j) == pairs[0] else None)
     triples = list(itertools.product(range(len(elems)), repeat=3)) if len(elems) <= 6 else [tuple(rng.randrange(len(elems)) for _ in range(3)) for _ in range(40)]
     for (i, j, k) in triples:
         a, b, c = elems[i], elems[j], elems[k]
